@@ -268,40 +268,60 @@ type delivery struct {
 	err      error
 	pan      string
 	// shadow side (C07)
-	shErr   error
-	shPan   string
-	shJSON  []byte
-	hasSh   bool
+	shErr     error
+	shPan     string
+	shJSON    []byte
+	hasSh     bool
 	neighbour bool // another hand was started in the same process; no operation on this hand
-	hopMut  bool // backend modified the state handed to it
-	restart bool // primary was rebuilt from JSON for this op
+	hopMut    bool // backend modified the state handed to it
+	restart   bool // primary was rebuilt from JSON for this op
 }
 
-// start creates the hand, checks the shuffle clause of C14 and pins the deck.
-func startGame(cfg *Cfg, withShadow bool) (*server, error, bool) {
-	opts := cfg.Options()
-	orig := cloneStrs(opts.Deck)
-	g := pokerface.NewGame(opts)
-	err := g.Start()
-	if err != nil {
-		return nil, err, true
-	}
-	gs := g.GetState()
-	permOK := isPermutation(orig, gs.Meta.Deck)
-	// pin the deck: no card has been dealt yet at the first wait point. The
-	// order is written into the engine's own slice (not a fresh one), so that
-	// whatever the engine's deck shares with other hands stays shared.
+// pinDeck writes the run's deck order into the engine's own slice (not a
+// fresh one), so that whatever the engine's deck shares with other hands
+// stays shared. No card has been dealt yet at the first wait point.
+func pinDeck(gs *pokerface.GameState, cfg *Cfg) {
 	if len(gs.Meta.Deck) == len(cfg.Deck) {
 		copy(gs.Meta.Deck, cfg.Deck)
 	} else {
 		gs.Meta.Deck = cloneStrs(cfg.Deck)
 	}
+}
+
+// startGame creates the hand, checks the shuffle clause of C14 and pins the
+// deck. viaBackend creates it through table.NativeBackend.CreateGame (the
+// primary then never has an in-memory original). The shadow is a second
+// in-memory original that is never rebuilt from JSON.
+func startGame(cfg *Cfg, withShadow bool, viaBackend bool) (*server, error, bool) {
+	opts := cfg.Options()
+	orig := cloneStrs(opts.Deck)
 	s := &server{cfg: cfg, nb: table.NewNativeBackend()}
+	var gs *pokerface.GameState
+	if viaBackend {
+		st, err := s.nb.CreateGame(opts)
+		if err != nil {
+			return nil, err, true
+		}
+		gs = st
+	} else {
+		g := pokerface.NewGame(opts)
+		if err := g.Start(); err != nil {
+			return nil, err, true
+		}
+		gs = g.GetState()
+		s.warm = g
+	}
+	permOK := isPermutation(orig, gs.Meta.Deck)
+	pinDeck(gs, cfg)
 	s.durable = marshalNorm(gs)
-	s.warm = g
 	s.prev = cloneGS(gs)
 	if withShadow {
-		s.shadow = pokerface.NewGameFromState(fromJSON(s.durable))
+		sh := pokerface.NewGame(cfg.Options())
+		if err := sh.Start(); err != nil {
+			return nil, err, true
+		}
+		pinDeck(sh.GetState(), cfg)
+		s.shadow = sh
 	}
 	return s, nil, permOK
 }
